@@ -2,6 +2,7 @@ import ConfModel.Driver.Common
 import ConfModel.Model.Assert
 import ConfModel.Model.AssertPath
 import ConfModel.Model.AssertSeq
+import ConfModel.Model.AssertLib
 import ConfModel.Spec.Agree
 import ConfModel.Generated.C03Facts
 namespace ConfModel.Driver.C03
@@ -262,6 +263,69 @@ def handle : Handler := fun op inp impl =>
     { agree := agree, holds := why.isEmpty, nontrivial := repeated,
       model := Json.mkObj [("listed", toJson mListed), ("outcomes", toJson (mOut.map fun (n, su, k, es) => Json.mkObj [("n", toJson n), ("setup", toJson su), ("kind", toJson k), ("errs", toJson es)]))],
       why := why, cls := if repeated then "seq:repeated-name" else "seq:unique-names" }
+  | "libassert" =>
+    let casesJ := arr (field inp "cases")
+    -- distinct config cases as (v, p, c, z, tls)
+    let cfgs := (arr (field inp "cfgs")).map fun c =>
+      (nat (field c "v"), nat (field c "p"), nat (field c "c"), nat (field c "z"), bool (field c "tls"))
+    let cfgs := cfgs.eraseDups
+    let common (c : Nat × Nat × Nat × Nat × Bool) := c.2.2.1 == 1 && (c.2.2.2.1 == 1 || c.2.2.2.1 == 2) && !c.2.2.2.2
+    let eligC (c : Nat × Nat × Nat × Nat × Bool) := common c && c.2.1 == 2 && c.1 == 2
+    let eligS (c : Nat × Nat × Nat × Nat × Bool) := common c && ((c.2.1 == 2 && c.1 == 2) || (c.2.1 == 3 && (c.1 == 1 || c.1 == 2)))
+    -- the library's originals in the model: one Def per (case, config case)
+    let defsOf (j : Json) : List AssertLib.Def := cfgs.map fun c =>
+      { name := str (field j "name"), st := pStream (nat (field j "st")), other := natList (field j "other"),
+        expected := pResult (field j "exp"), eligibleClient := eligC c, eligibleServer := eligS c }
+    let perms := arr (field impl "perms")
+    let ierr := str (field impl "err")
+    let judged := casesJ.map fun j =>
+      let nm := str (field j "name")
+      let a := pResult (field j "act")
+      let expect := str (field j "expect")
+      let mutn := str (field j "mut")
+      let mperms := AssertLib.allPermutations (defsOf j) true true
+      let mine := perms.filter fun p => str (field p "case") == nm
+      let kindCount (k : String) := (mine.filter fun p => str (field p "kind") == k).length
+      let mCount (m : Option AssertLib.Marker) := match m with
+        | none => cfgs.length
+        | some m => (AssertLib.copies m (defsOf j)).length
+      let d0 : AssertLib.Def := (defsOf j).headD default
+      let m := (AssertLib.verdictOf grace d0 a).map render
+      -- every model permutation gives the verdict of the original (the theorem, evaluated)
+      let agree := mine.length == mperms.length && kindCount "" == mCount none && kindCount "client" == mCount (some .client) &&
+        kindCount "server" == mCount (some .server) && kindCount "both" == mCount (some .both) &&
+        mperms.all (fun p => (AssertLib.verdictOf grace p a).map render == m) &&
+        mine.all fun p => bool (field p "recorded") && strList (field p "errs") == m
+      let wf := decide (WellFormed d0.expected a)
+      let agrees := wf && decide (Agree grace d0.st d0.other d0.expected a)
+      let whys := mine.filterMap fun p =>
+        let at_ := " [" ++ str (field p "name") ++ ", " ++ mutn ++ "]"
+        let diff := strList (field p "diff")
+        let od := strList (field p "origDiff")
+        let errs := strList (field p "errs")
+        let passed := errs.isEmpty
+        if !diff.isEmpty then some ("definition: the permutation differs from its suite entry in " ++ toString diff ++ at_)
+        else if !od.isEmpty then some ("definition: the gRPC-impl copy differs from its original in " ++ toString od ++ at_)
+        else if !bool (field p "recorded") then some ("unrecorded: assert recorded no outcome" ++ at_)
+        else if !wf then none
+        else if passed && !agrees then some ("missed: the results do not agree but the permutation passed" ++ at_)
+        else if !passed && agrees then some ("spurious: the result agrees with the suite's definition up to the documented leniencies but " ++ toString errs ++ " was reported" ++ at_)
+        else if !(expect.isEmpty || errs.contains expect) then some ("unnamed: the deviation must be named as " ++ expect ++ " but the report is " ++ toString errs ++ at_)
+        else none
+      -- a copy is judged as its original: all permutations of one case show one verdict
+      let verdicts := (mine.map fun p => strList (field p "errs")).eraseDups
+      let whys := if verdicts.length > 1 then whys ++ ["copies: permutations of case " ++ nm ++ " (" ++ mutn ++ ") are judged differently: " ++ toString verdicts] else whys
+      (agree, whys, m, (mine.filter fun p => str (field p "kind") != "").length, agrees, mutn)
+    let orphan := perms.filter fun p => !(casesJ.any fun j => str (field j "name") == str (field p "case"))
+    let whys := judged.flatMap (·.2.1)
+    let why := if !ierr.isEmpty then ierr
+      else if !orphan.isEmpty then "definition: a permutation belongs to no suite entry"
+      else whys.headD ""
+    let nCopies := (judged.map (·.2.2.2.1)).foldl (· + ·) 0
+    let altUsed := judged.any fun (_, _, _, k, ag, mutn) => k > 0 && ag && mutn.startsWith "other-allowed-code"
+    { agree := ierr.isEmpty && orphan.isEmpty && judged.all (·.1), holds := why.isEmpty, nontrivial := nCopies > 0,
+      model := toJson (judged.map (·.2.2.1)), why := why,
+      cls := if altUsed then "lib:copy-alternative-code" else if nCopies > 0 then "lib:copies" else "lib:no-copies" }
   | "canon" =>
     let vals := (strList (field inp "vals")).map String.toList
     let ic := (strList (field impl "canon")).map String.toList
